@@ -1891,6 +1891,11 @@ class _gpg_multivalued(_multivalued):
                     args = tuple(argsl)
                 except IndexError:
                     kwargs["sequence"] = lines
+                # Text lines were encoded with `encoding` above (the encoding
+                # of a file opened in text mode wins over the argument), so
+                # the same encoding has to be used to decode them again.
+                if len(args) < 4:
+                    kwargs["encoding"] = encoding
 
         _multivalued.__init__(self, *args, **kwargs)
 
